@@ -200,7 +200,9 @@ pub fn check_forward(rec: &Rec, garbage: &[u8], ctx: &mut Ctx) -> Result<(), Fai
         Some(Err(m)) => return cx.fail(ctx, "from_bytes", "rejects-own-encoding", m),
         None => {}
     }
-    if has_read(&k) {
+    // a reader has no enclosing length: the "payload length 0 = up to the end of the data" rule is
+    // documented for slices only (IpHeaders::read takes the field literally)
+    if has_read(&k) && !info.variant.starts_with("v6(plen0)") {
         let mut data = plain.clone();
         data.extend(garbage);
         data.extend([0x77u8; 4]);
